@@ -27,7 +27,8 @@ func compactNode(id krpc.ID, a *net.UDPAddr) []byte {
 
 // respond answers the node's outgoing find_node/get_peers/get/ping queries as a small simulated network:
 // every simulated node lists the given neighbours. Runs until `done` is closed and the wire is idle.
-func (h *H) respond(done <-chan struct{}, neighbours []*net.UDPAddr, silent map[string]bool) {
+func (h *H) respond(done <-chan struct{}, neighbours []*net.UDPAddr, silent map[string]bool) (written map[string]bool) {
+	written = map[string]bool{}
 	idle := 0
 	for idle < 40 {
 		outs := h.conn.TakeAll()
@@ -43,6 +44,9 @@ func (h *H) respond(done <-chan struct{}, neighbours []*net.UDPAddr, silent map[
 		idle = 0
 		for _, o := range outs {
 			d := h.logOut(o.Out, o.Failed)
+			if y, _ := d.Str("y"); string(y) == "q" && !o.Failed {
+				written[o.To.String()] = true
+			}
 			if y, _ := d.Str("y"); string(y) != "q" || o.Failed || silent[o.To.String()] {
 				continue
 			}
@@ -69,6 +73,7 @@ func (h *H) respond(done <-chan struct{}, neighbours []*net.UDPAddr, silent map[
 			h.inRaw(o.To, sim.Encode(sim.D("t", t, "y", "r", "r", r)), "r", t)
 		}
 	}
+	return
 }
 
 // C19: blocklist (at construction or later; IPv4, v4-mapped, IPv6) and passive mode on every inbound and
@@ -189,22 +194,30 @@ func scenBlock(rng *rand.Rand, tr *sim.Trace, seg int, events int) {
 				h.flush(false)
 				continue
 			}
+			var tried uint32
 			go func() {
 				defer close(done)
 				if kind == 0 {
-					h.srv.Bootstrap()
+					st, _ := h.srv.Bootstrap()
+					tried = st.NumAddrsTried
 				} else {
 					a, err := h.srv.AnnounceTraversal(randID(rng))
 					if err == nil {
 						for range a.Peers {
 						}
+						<-a.Finished()
+						tried = a.NumContacted()
 						a.Close()
 					}
 				}
 			}()
 			silent := map[string]bool{}
-			h.respond(done, pool, silent)
+			h.keepQuiet()
+			written := h.respond(done, pool, silent)
+			<-done
 			h.flush(false)
+			// every address the lookup decided to query must be one the node may send to
+			h.tr.Emit(sim.M{"seg": h.seg, "e": "Lookup", "tried": int(tried), "written": len(written)})
 		}
 	}
 	for _, c := range open {
@@ -610,3 +623,6 @@ func (h *H) tokenQuiet(src *net.UDPAddr) []byte {
 	}
 	return nil
 }
+
+// keepQuiet discards datagrams captured before a traversal starts, so that only its own queries are counted.
+func (h *H) keepQuiet() { h.flush(false) }
